@@ -655,6 +655,9 @@ func (w *World) paramsMsg(op *Op, named Addr) sdk.Msg {
 	switch op.Kind {
 	case ParamsEnt:
 		signers := p.SignersRaw
+		for k := 0; k < 4; k++ {
+			signers = strings.ReplaceAll(signers, fmt.Sprintf("{%d}", k), w.acct(k).Bytes.String())
+		}
 		if signers == "" {
 			var ss []string
 			for _, i := range p.Signers {
